@@ -148,12 +148,13 @@ Definition entries_C08 : list entry := [
        let? fe := d_larr fe in let? oe := d_larr oe in let? rd := d_dimspec rd in let? pd := d_dimspec pd in
        Some (e_result e_larrs (manager_counts fe oe rd pd))
      | _ => None end));
-  (* ThresholdEventOperator: (which default_threshold default_op fcst obs threshold op rd pd)
+  (* ThresholdEventOperator: (which constructor_threshold|none constructor_op|none fcst obs threshold op rd pd)
      -> ( (fcst_events obs_events) , counts | err ) ; which = tables | manager *)
   ("c08_threshold_operator", fun r => orun (
      match r with RL [which; dt; dop; f; o; t; op; rd; pd] =>
        let? which := d_str which in
-       let? dt := d_xv dt in let? dop := d_op dop in let? f := d_larr f in let? o := d_larr o in
+       let? dt := d_opt d_xv dt in let? dop := d_opt d_op dop in let? f := d_larr f in let? o := d_larr o in
+       let dt := gen_init_event_threshold dt in let dop := gen_init_op_fn dop in
        let? t := d_opt d_xv t in let? op := d_opt d_op op in let? rd := d_dimspec rd in let? pd := d_dimspec pd in
        let evt := if String.eqb which "tables" then gen_make_event_tables else gen_make_contingency_manager in
        let '(fe, oe) := event_arrays evt dt dop f o t op in
